@@ -67,6 +67,14 @@ impl<T> ReplicaArc<Mutex<T>> {
 
     #[inline]
     pub fn blocking_lock_owned(self) -> ReplicaOwnedMutexGuard<T> {
+        #[cfg(feature = "verif_hooks")]
+        if crate::verif::hook_installed() {
+            // On a thread driven by a verification harness, wait through the harness' scheduler
+            // instead of parking the thread. It is the same tokio future either way.
+            return ReplicaOwnedMutexGuard {
+                inner: crate::verif::block_on(self.inner.lock_owned()),
+            };
+        }
         ReplicaOwnedMutexGuard {
             inner: self.inner.blocking_lock_owned(),
         }
